@@ -32,6 +32,14 @@ func isNilStoreTo(in ssa.Instruction, field string) bool {
 }
 
 func runC34(p *Prog, r *Report) {
+	// E8: the once-guard of the compressed stream wrapper. The flag that says "the original stream was closed"
+	// is tested and set by two goroutines (the compressing one and whoever discards the wrapper); the test, the
+	// store and the Close call form one critical section, so every access to the flag holds the wrapper's lock.
+	checkLockset(p, r, "E8", &lockTable{
+		guards:      map[string]string{"compressedBodyStream.originalClosed": "compressedBodyStream.originalLock"},
+		heldOnEntry: map[string][]string{},
+		exempt:      map[string]string{},
+	}, nil)
 	helper := p.Func("closeBodyStreamReader")
 	n := 0
 	closers := map[*ssa.Function]bool{}
